@@ -327,7 +327,7 @@ PROPS["C15"]["text"] += " std map targets (BTreeMap / HashMap<u8, Leaf>): three 
 for _p in ("C06",):
     PROPS[_p]["text"] += " Set and map CONTENTS (unbounded, Verus unit impls): for HashSet / BTreeSet the result is exactly the set of the deserialized elements (every member represents some payload element and every payload element is represented by a member); for HashMap / BTreeMap the keys are exactly the parsed keys of the entries and the value under a key represents the payload value of an entry with that parsed key -- each relative to vstd's model condition on the key type (obeys_key_model / key_obeys_cmp_spec: Hash / Eq / Ord behave as std requires) and to FromStr being a function of the string. Tuples: the elements are read only from a sequence of exactly the arity (labelled assertion before the first element is read). Also under contract: PhantomData<T> (reads nothing, never reports) and `Sequence for Vec<T>` (a Vec used as a value source enumerates its elements in order); `Sequence for [T; N]` is not (core::array::IntoIter has no vstd specification)."
     PROPS[_p]["level_note"] = "Vec / array / tuple / Option / Box / set / map unbounded (sets and maps relative to the stated key-model condition); the bounded container harnesses remain as cross-checks and counterexample finders."
-PROPS["C16"]["text"] = PROPS["C16"]["text"].replace("41 hand-written derive inputs (5 valid controls, 36 poisoned", "68 hand-written derive inputs (8 valid controls, 60 poisoned")
+PROPS["C16"]["text"] = PROPS["C16"]["text"].replace("41 hand-written derive inputs (5 valid controls, 36 poisoned", "79 hand-written derive inputs (9 valid controls, 70 poisoned")
 
 # bounded companions of the Verus units cs / json_target, tagged enum with function attributes
 for _p in ("C01", "C02", "C03", "C04", "C06", "C12"):
@@ -351,6 +351,19 @@ for _p in ("C01", "C02", "C03", "C04"):
     _more(_p, "enum", "derive-core-enum", "harnesses", ["derive_cont9b", "derive_camel2_2"])
 for _p in ("C07", "C09"):
     PROPS[_p]["text"] += " A 22-field struct (one field skipped and one renamed in the middle; native execution only) pins the declaration order of the accepted list and the key of every field beyond the sizes at which slice sorts change algorithm; identifiers that are already camelCase / mixed case under rename_all = camelCase (Camel2) are in both catalogues."
+
+# after the sixth batch of seeded changes
+for _p in ("C01", "C02", "C03", "C04"):
+    _more(_p, "enum", "derive-core-enum", "harnesses", ["derive_tagboth_2", "derive_tagval_2", "derive_unitsv"])
+_more("C07", "enum", "derive-keys-enum", "harnesses", ["derive_tagboth_2"])
+_more("C09", "enum", "derive-unknown-enum", "harnesses", ["derive_tagboth_2"])
+_more("C10", "enum", "derive-enum-enum", "harnesses", ["derive_tagboth_2", "derive_tagval_2", "derive_unitsv"])
+_more("C11", "enum", "derive-fns-enum", "harnesses", ["derive_tagval_2", "derive_unitsv"])
+_more("C12", "enum", "derive-total-enum", "harnesses", ["derive_tagboth_2", "derive_tagval_2", "derive_unitsv"])
+PROPS["C12"]["units"] = PROPS["C12"]["units"] + [{"kind": "enum", "group": "message-text", "harnesses": ["msg_paths", "msg_readback"],
+    "bounds": "building the built-in messages never panics: every location of depth <= 3 over 9 steps (incl. the empty key, a key with a dot, a key starting with a digit) x every error kind x both error types; 39 068 failing payloads of a composite derived type"}]
+PROPS["C10"]["text"] += " Variants carrying BOTH rename and rename_all, written in either order or as two attributes (TagBoth), are in both catalogues."
+PROPS["C11"]["text"] += " `validate` on enums (an internally tagged enum with unit variants, a unit-only enum read from a string): bounded harnesses derive_tagval_2 / derive_unitsv."
 
 # C13: container part, bounded
 PROPS["C13"]["units"] = PROPS["C13"]["units"] + [{"kind": "enum", "group": "json-documents", "harnesses": ["json_documents"],
